@@ -34,7 +34,12 @@ func New(tr drpc.Transport) *Conn { return NewWithOptions(tr, Options{}) }
 func NewWithOptions(tr drpc.Transport, _ Options) *Conn {
 	sc, ok := tr.(*simnet.SimConn)
 	if !ok {
-		panic("simdrpc: transport is not a simulated connection")
+		// a wrapper around a simulated connection (the simulated tls.Conn)
+		u, ok2 := tr.(interface{ Sim() *simnet.SimConn })
+		if !ok2 {
+			panic("simdrpc: transport is not a simulated connection")
+		}
+		sc = u.Sim()
 	}
 	c := &Conn{tr: sc, closed: make(chan struct{})}
 	simrt.Go("drpcconn-reader", c.reader)
